@@ -13,6 +13,7 @@ Binding:
  (B2) documents of Decor.tla (every combination of box size incl. zero, border style, radius, background kind, overflow,
       opacity, transform, outline), Flow.tla, TableGrid.tla, Stacking.tla and the link documents are drawn at zoom 1, 0.5
       and 3 on the recording backend and TLC validates every recorded call sequence with BackendTrace.tla (Proto).
+Decor.tla also has three degenerate radial gradients and a text drawn with two fonts (fallback inside one text box).
 """
 import json
 import os
